@@ -287,10 +287,17 @@ impl<H: Hasher> MerkleTree<H> {
             return Err(MerkleTreeError::InvalidProof);
         }
 
+        // the path determines the depth of the tree: a position beyond its last leaf does not
+        // exist (and would otherwise be treated as the position with the same low-order bits)
+        let num_leaves = 2usize.pow((proof.len() - 1) as u32);
+        if index >= num_leaves {
+            return Err(MerkleTreeError::LeafIndexOutOfBounds(num_leaves, index));
+        }
+
         let r = index & 1;
         let mut v = H::merge(&[proof[r], proof[1 - r]]);
 
-        let mut index = (index + 2usize.pow((proof.len() - 1) as u32)) >> 1;
+        let mut index = (index + num_leaves) >> 1;
         for &p in proof.iter().skip(2) {
             v = if index & 1 == 0 {
                 H::merge(&[v, p])
